@@ -14,10 +14,32 @@ namespace symns
 
 inline std::ostream& operator<< (std::ostream& os, Sym a)
 {
-    // a Sym prints as one opaque token (used for the stream-output property)
+    // a Sym prints as one opaque token recording the stream state a real element would be
+    // formatted with (field width, format flags, precision); like a real operator<< it resets the width
     std::ostringstream t;
-    t << "@" << a.n->id;
-    return os << t.str ();
+    t << '\x01' << a.n->id << ':' << (long) os.width () << ':' << (long) os.flags () << ':' << (long) os.precision () << '\x02';
+    os.width (0);
+    return os.write (t.str ().data (), (std::streamsize) t.str ().size ());
+}
+
+// a printed text split into literal pieces and element tokens
+struct TextSeg { bool tok; std::string lit; int node; long w, flags, prec; };
+inline std::vector<TextSeg> parseText (const std::string& s)
+{
+    std::vector<TextSeg> out;
+    std::string cur;
+    for (size_t i = 0; i < s.size (); ++i)
+    {
+        if (s[i] != '\x01') { cur += s[i]; continue; }
+        if (!cur.empty ()) { out.push_back (TextSeg{false, cur, 0, 0, 0, 0}); cur.clear (); }
+        size_t e = s.find ('\x02', i);
+        TextSeg t{true, "", 0, 0, 0, 0};
+        sscanf (s.substr (i + 1, e - i - 1).c_str (), "%d:%ld:%ld:%ld", &t.node, &t.w, &t.flags, &t.prec);
+        out.push_back (t);
+        i = e;
+    }
+    if (!cur.empty ()) out.push_back (TextSeg{false, cur, 0, 0, 0, 0});
+    return out;
 }
 
 //-----------------------------------------------------------------------------
@@ -58,13 +80,14 @@ template <class A> struct Agg; // specialised in shapes.h: shape(), flat(A&, std
 //-----------------------------------------------------------------------------
 // function records
 
-struct OutItem { enum Kind { AGG, SCALAR, BOOL, INT } kind; const Shape* shape; int n; };
+struct OutItem { enum Kind { AGG, SCALAR, BOOL, INT, STR } kind; const Shape* shape; int n; };
 struct Leaf
 {
     bool                     thrown = false;
     std::string              exc;
     std::vector<const Node*> vals;
     std::vector<long>        ints;
+    std::vector<std::string> strs; // printed texts (tokens encoded, see parseText)
 };
 struct PathRec { std::vector<std::pair<Cond, bool>> conds; Leaf leaf; };
 struct Param { std::string name; const Shape* shape; std::vector<const Node*> vars; };
@@ -100,6 +123,7 @@ template <class T> struct Ctx
     size_t                ipos   = 0;
     std::vector<T>        cvals;
     std::vector<long>     cints;
+    std::vector<std::string> cstrs;
     size_t                pIdx = 0;
 
     T inS (const std::string& name)
@@ -158,6 +182,11 @@ template <class T> struct Ctx
     {
         item (OutItem::BOOL, nullptr, 1);
         if constexpr (symbolic) leaf.ints.push_back (b ? 1 : 0); else cints.push_back (b ? 1 : 0);
+    }
+    void outStr (const std::string& v)
+    {
+        item (OutItem::STR, nullptr, 1);
+        if constexpr (symbolic) leaf.strs.push_back (v); else cstrs.push_back (v);
     }
     void outI (long v)
     {
@@ -443,9 +472,10 @@ struct Emitter
     {
         if (l.thrown) return ".error Exc." + l.exc;
         std::vector<std::string> items;
-        size_t                   vi = 0, ii = 0;
+        size_t                   vi = 0, ii = 0, si = 0;
         for (auto& o : r->outs)
         {
+            if (o.kind == OutItem::STR) { items.push_back (segsStr (l.strs[si++])); continue; }
             if (o.kind == OutItem::AGG)
             {
                 std::vector<std::string> comps;
@@ -462,11 +492,43 @@ struct Emitter
         else { s = "("; for (size_t i = 0; i < items.size (); ++i) s += (i ? ", " : "") + items[i]; s += ")"; }
         return r->throws ? ".ok (" + s + ")" : s;
     }
+    // flattened index of an input variable node (position among all parameter leaves)
+    long varIndex (int nodeId)
+    {
+        long k = 0;
+        for (auto& p : r->params) for (auto* v : p.vars) { if (v && v->id == nodeId) return k; ++k; }
+        return 1000000 + nodeId; // not a plain input slot
+    }
+    std::string segsStr (const std::string& text)
+    {
+        std::string s = "[";
+        bool first = true;
+        for (auto& t : parseText (text))
+        {
+            if (!first) s += ", ";
+            first = false;
+            if (t.tok) s += "Seg.tok " + std::to_string (varIndex (t.node)) + " " + std::to_string (t.w) + " " + std::to_string (t.flags) + " " + std::to_string (t.prec);
+            else
+            {
+                s += "Seg.lit [";
+                bool f2 = true;
+                for (char ch : t.lit)
+                {
+                    if (!f2) s += ", ";
+                    f2 = false;
+                    if (ch == '\n') s += "'\\n'"; else if (ch == '\'') s += "'\\''"; else if (ch == '\\') s += "'\\\\'";
+                    else if (ch == '\t') s += "'\\t'"; else { s += "'"; s += ch; s += "'"; }
+                }
+                s += "]";
+            }
+        }
+        return s + "]";
+    }
     std::string retType ()
     {
         std::vector<std::string> items;
         for (auto& o : r->outs)
-            items.push_back (o.kind == OutItem::AGG ? "(" + o.shape->lean + " α)" : o.kind == OutItem::SCALAR ? "α" : o.kind == OutItem::BOOL ? "Bool" : "Int");
+            items.push_back (o.kind == OutItem::STR ? "(List Seg)" : o.kind == OutItem::AGG ? "(" + o.shape->lean + " α)" : o.kind == OutItem::SCALAR ? "α" : o.kind == OutItem::BOOL ? "Bool" : "Int");
         std::string s;
         if (items.empty ()) s = "Unit";
         else { for (size_t i = 0; i < items.size (); ++i) s += (i ? " × " : "") + items[i]; }
@@ -651,6 +713,8 @@ template <class T> struct Evaluator
         return c.kind == C_LT ? a < b : c.kind == C_LE ? a <= b : a == b;
     }
     // returns false if no path matches (cannot happen for a complete tree)
+    std::vector<std::string> strs; // texts of the selected leaf, element tokens rendered with the real stream formatting
+    template <class U> static void renderTok (std::ostringstream& o, const U& v) { o << v; }
     bool run (const FnRecord& f, const std::vector<T>& args, std::vector<T>& vals, std::vector<long>& ints, std::string& exc)
     {
         env.clear (); memo.clear (); callMemo.clear ();
@@ -667,6 +731,23 @@ template <class T> struct Evaluator
                 vals.clear ();
                 for (auto* v : p0.leaf.vals) vals.push_back (ev (v));
                 ints = p0.leaf.ints;
+                strs.clear ();
+                if constexpr (!std::is_same<T, Frac>::value)
+                    for (auto& text : p0.leaf.strs)
+                    {
+                        std::string out;
+                        for (auto& t : parseText (text))
+                        {
+                            if (!t.tok) { out += t.lit; continue; }
+                            std::ostringstream o;
+                            o.flags ((std::ios_base::fmtflags) t.flags);
+                            o.precision (t.prec);
+                            o.width (t.w);
+                            renderTok (o, ev (pool ().all[t.node]));
+                            out += o.str ();
+                        }
+                        strs.push_back (out);
+                    }
                 return true;
             }
             size_t mid = lo;
